@@ -56,6 +56,21 @@ def slots_never_removed(ck, C):
 
 def token_factory_rules(ck, C):
     f = ck.facts
+    # every built-in source draws a fresh token from the factory on every (re)registration, on every path,
+    # and registers under exactly that token (otherwise two sub-sources of one composite source share a key)
+    for q, callee, path in (("<Generic as EventSource>::register", "register", "sys::Poll::"), ("<Generic as EventSource>::reregister", "reregister", "sys::Poll::"), ("<Timer as EventSource>::register", "insert", "sources::timer::TimerWheel::")):
+        g = ck.opt_body(q)
+        if g is None:
+            ck.anchor_missing(C, "T6-provenance", q)
+            continue
+        tk = T.calls(g, name="token", path="TokenFactory::token")
+        reg = [cs for cs in T.calls(g, name=callee) if cs.f["path"].startswith(path)]
+        for r_ in reg:
+            targ = r_.args[4] if callee != "insert" else r_.args[2]
+            roots = {r for r, p in g.resolve(targ)}
+            only = bool(tk) and roots and all(r[0] == "call" and r[1] in [c.bb for c in tk] for r in roots)
+            dom = bool(tk) and T.t3_dominated_by_any(g, r_.bb, [c.bb for c in tk])
+            ck.verdict(only and dom, C, "T6-provenance", g, "registers-under-fresh-factory-token", "the token registered is, on every path, the one just drawn from the TokenFactory (the factory advances on every registration)", "the source can (re)register under a token that was not freshly drawn from the TokenFactory (e.g. its previously stored token): the factory does not advance, and the next sub-source of the same composite source is handed the same token", site=g.where(r_.bb))
     # ---- clause 7: sub-token allocation ------------------------------------------------------------------------
     tf = ck.opt_body("TokenFactory::token")
     if tf is None:
@@ -301,6 +316,17 @@ def run(ck):
         for c in inner:
             n += 1
             ck.verdict(T.resolves_to_arg(b2, c.args[1], 2) and T.resolves_to_arg(b2, c.args[2], 3), "6", "T6-provenance", b2, "forwards-own-readiness-and-token", "the inner source receives the wrapper's own readiness and token", "the wrapper hands its inner source a different readiness/token: %s / %s" % (b2.roots_str(c.args[1]), b2.roots_str(c.args[2])), site=b2.where(c.bb))
+    # a wrapper calls the user back only from inside the callback it hands to its inner source, so that the
+    # inner source's own checks (token guard, drain of the wake-up) always come first
+    for st, meths in sorted(common.event_source_impls(f).items()):
+        b2 = meths.get("process_events")
+        if b2 is None or st.split("<")[0] in ("Generic", "Timer", "TransientSource", "Box", "&mut T"):
+            continue
+        if not T.calls(b2, name="process_events", trait="EventSource"):
+            continue
+        direct = T.calls(b2, name=("call_mut", "call", "call_once"), self_kind=("param",))
+        ck.verdict(not direct, "6", "T3-must-precede", b2, "callback-only-inside-inner-callback", "the user callback is only invoked from the closure handed to the inner source", "the wrapper invokes the user callback outside the closure it hands to its inner source: the inner source's token guard no longer protects it (a disabled / foreign event reaches the callback)", site=b2.where(direct[0].bb) if direct else b2.where())
+    import_n = common.import_results(ck, __import__("props.C05", fromlist=["x"]), "5", "Timer", "5")
     ck.floor("6", "wrapper process_events forwarding sites", n, 8 if ck.has("executor") and ck.has("stream") and ck.has("signals") else 5)
 
     token_factory_rules(ck, "7")
